@@ -138,9 +138,9 @@ impl VerificationThread {
         let mut block = result.unwrap();
         block.routed_from_peer = Some(peer_index);
 
-        block.generate().unwrap();
+        let generated = block.generate();
 
-        if block.id != block_id || block.hash != block_hash {
+        if generated.is_err() || block.id != block_id || block.hash != block_hash {
             warn!(
                 "block : {:?}-{:?} fetched. but deserialized block's hash is : {:?}-{:?}",
                 block.id,
